@@ -34,7 +34,8 @@ type auGroup struct {
 	NArgs   int
 }
 
-var userTypes = []string{"USER_START", "USER_END", "CRED_ACQ", "CRED_REFR", "USER_LOGIN", "USER_ACCT", "USER_CMD", "USER_AUTH", "USER_ERR"}
+var userTypes = []string{"USER_START", "USER_END", "CRED_ACQ", "CRED_REFR", "USER_LOGIN", "USER_ACCT", "USER_CMD", "USER_AUTH", "USER_ERR",
+	"USER_LOGOUT", "USER_CHAUTHTOK", "USER_ROLE_CHANGE", "USER_MGMT", "SERVICE_START", "SERVICE_STOP"}
 
 func genGroup(r *vlib.Rng, tsms int64, seq uint32, pid int, ses string, allowCD bool) auGroup {
 	g := auGroup{TSms: tsms}
